@@ -284,6 +284,41 @@ def run(ctx) -> None:
                 if tr in (1, -1) and inv in (1, -1) and g not in (TOP, Z) and (tr, inv) != g:
                     r1.observe(f"{c.name} declares ({tr:+d},{inv:+d}) but evaluates {show(g)}; the declaration is never consumed "
                                f"(not a calculator Formula nor a product/sum factor)")
+    # a declaration holds for the object however it was configured: it is assigned on every path of the constructor, and a calculator and the
+    # Formula class it names never declare different transforms (the calculator's wins at run time, the formula's is what audits / other callers read)
+    def _decls(init_fn):
+        out_ = {}
+        for st_ in ast.walk(init_fn.node):
+            if isinstance(st_, ast.Assign) and len(st_.targets) == 1 and isinstance(st_.targets[0], ast.Attribute) and norm(st_.targets[0].value) == "self" \
+                    and st_.targets[0].attr in ("transformTR", "transformInv"):
+                out_.setdefault(st_.targets[0].attr, []).append(st_)
+        return out_
+    for rel in mods + ["wannierberri/calculators/dynamic.py", "wannierberri/calculators/static.py", "wannierberri/calculators/tabulate.py"]:
+        m = idx.module(rel)
+        for c in m.classes.values():
+            ini = c.methods.get("__init__")
+            if ini is None:
+                continue
+            dd_ = _decls(ini)
+            for attr_, sts_ in dd_.items():
+                top_ = [x_ for x_ in sts_ if x_ in ini.node.body]
+                both_ = any(isinstance(i_, ast.If) and any(x_ in ast.walk(ast.Module(body=i_.body, type_ignores=[])) for x_ in sts_)
+                            and any(x_ in ast.walk(ast.Module(body=i_.orelse, type_ignores=[])) for x_ in sts_) for i_ in ini.node.body)
+                r1.check(bool(top_) or both_, f"{c.name}.{attr_} is declared on every path of the constructor", ini, sts_[0],
+                         f"{c.name} declares `{attr_}` only under a condition: for the other configuration (e.g. external_terms=False) the object carries no declared "
+                         f"parity at all and its results are symmetrised / mapped to images without any sign", stmt=f"{c.name}.{attr_} conditional")
+            fs_ = [st_ for st_ in ast.walk(ini.node) if isinstance(st_, ast.Assign) and len(st_.targets) == 1 and norm(st_.targets[0]) == "self.Formula"
+                   and isinstance(st_.value, ast.Name)]
+            if fs_ and dd_:
+                fc_ = idx.resolve_name(m, fs_[0].value.id)
+                fini_ = fc_.methods.get("__init__") if fc_ is not None and hasattr(fc_, "methods") else None
+                fd_ = _decls(fini_) if fini_ is not None else {}
+                for attr_ in ("transformTR", "transformInv"):
+                    if attr_ in dd_ and attr_ in fd_:
+                        a_, b_ = norm(dd_[attr_][-1].value), norm(fd_[attr_][-1].value)
+                        r1.check(a_ == b_, f"{c.name} and its Formula {fc_.name} declare the same {attr_}", fini_, fd_[attr_][-1],
+                                 f"{fc_.name} declares {attr_} = {b_} while the calculator {c.name} that uses it declares {a_}: one of the two is not the parity of "
+                                 f"the integrand (the two declaration sites contradict each other)", stmt=f"{fc_.name}.{attr_} vs {c.name}")
     r1.note(f"einsum/sum terms visited: {n_terms}; consumed declarations compared: {inferred_consumed}; declared-only "
             f"(not inferable): {declared_only}")
     ctx.extra["terms_visited"] = n_terms
